@@ -355,7 +355,16 @@ class FnFacts:
             if h.type is None:
                 return h
             types = h.type.elts if isinstance(h.type, ast.Tuple) else [h.type]
+            # a module-level tuple of exception classes used as the filter
+            flat = []
             for t in types:
+                v = self.fn.module.const(t.id) if isinstance(t, ast.Name) \
+                    else None
+                if isinstance(v, (ast.Tuple, ast.List)):
+                    flat.extend(v.elts)
+                else:
+                    flat.append(t)
+            for t in flat:
                 full = canon_exc(self.scope.repo.exc_fullname(
                     self.fn.module, dotted(t)))
                 if full in anc:
@@ -363,7 +372,7 @@ class FnFacts:
         return None
 
     # -- D-guard ------------------------------------------------------
-    def len_guard(self, site_node, bufname, need_names=()):
+    def len_guard(self, site_node, bufname, need_names=(), size_attr=False):
         """A raise-guard (or assert) dominating the site whose test calls
         len(<bufname>) and mentions every name in need_names, with no
         rebinding of bufname between guard and site."""
@@ -380,6 +389,15 @@ class FnFacts:
             has_len = any(isinstance(c, ast.Call) and call_name(c) == "len"
                           and c.args and norm(c.args[0]) == bufname
                           for c in walk_local(g.test))
+            if size_attr:
+                # the guard fixes the element count / shape of an array
+                has_len = any(isinstance(c, ast.Attribute) and
+                              c.attr in ("size", "shape") and
+                              norm(c.value) == bufname
+                              for c in walk_local(g.test)) and any(
+                    isinstance(c, ast.Compare) and
+                    isinstance(c.ops[0], (ast.Eq, ast.NotEq))
+                    for c in walk_local(g.test))
             if not has_len:
                 continue
             gnames = names_in(g.test)
@@ -855,11 +873,20 @@ def _classify(scope, ff, fn, node, t):
         if isinstance(base, ast.Name) and base.id in ff.array_names \
                 and base.id not in ff.tuple_names:
             sl = node.slice
-            only_slices = isinstance(sl, ast.Slice) or (
+            def slice_like(e):
+                # a[lo:hi], ..., slice(lo, hi): clip, never IndexError
+                return isinstance(e, ast.Slice) or \
+                    (isinstance(e, ast.Constant) and
+                     (e.value is Ellipsis or e.value is None)) or \
+                    (isinstance(e, ast.Call) and call_name(e) == "slice")
+            only_slices = slice_like(sl) or (
                 isinstance(sl, ast.Tuple) and all(
-                    isinstance(e, ast.Slice) or
-                    (isinstance(e, ast.Constant) and e.value is Ellipsis)
-                    for e in sl.elts))
+                    slice_like(e) for e in sl.elts)) or (
+                # tuple(slice(0, n) for n in shape)
+                isinstance(sl, ast.Call) and call_name(sl) == "tuple" and
+                len(sl.args) == 1 and
+                isinstance(sl.args[0], (ast.GeneratorExp, ast.ListComp)) and
+                slice_like(sl.args[0].elt))
             if not only_slices:
                 return ("index", ["IndexError"], None, norm(node)[:90])
         return None
@@ -911,6 +938,11 @@ def _reshape_discharge(scope, ff, node, operand, depth=0, bind=None):
     """The operand's *size* is fixed independently of the untrusted bytes, or
     the underlying buffer has a length guard."""
     fn = ff.fn
+    # an explicit format check of the element count / shape of the operand
+    if isinstance(operand, ast.Name) and depth == 0:
+        g = ff.len_guard(node, operand.id, size_attr=True)
+        if g is not None:
+            return True, "D-guard: `%s` fixes the size" % norm(g.test)[:60]
     # direct frombuffer(...) operand or name defined by one
     exprs = [operand]
     seen = set()
@@ -952,17 +984,33 @@ def _reshape_discharge(scope, ff, node, operand, depth=0, bind=None):
                     return False, how
                 # need an *exact* size: the guard must be an equality or a
                 # modulus test on the length
+                def is_exact(g_):
+                    return any(isinstance(c, ast.Compare) and
+                               isinstance(c.ops[0], (ast.NotEq, ast.Eq))
+                               for c in walk_local(g_.test)) or any(
+                        # `if len(buf) % n:` - truthiness of a remainder
+                        isinstance(c, ast.BinOp) and isinstance(c.op, ast.Mod)
+                        for c in walk_local(g_.test))
                 g = ff.guard_for(node, e.args[0])
+                if g is None and isinstance(e.args[0], ast.Name) and \
+                        e.args[0].id in fn.params and depth < 4:
+                    # the buffer is a parameter: every caller fixes its size
+                    callers = scope.callers.get(fn.key, [])
+                    idx = fn.params.index(e.args[0].id)
+                    gs = []
+                    for cfn, call in callers:
+                        if idx >= len(call.args):
+                            gs.append(None)
+                            continue
+                        gs.append(facts(scope, cfn).guard_for(
+                            call, call.args[idx]))
+                    if callers and all(x is not None and is_exact(x)
+                                       for x in gs):
+                        continue
                 if g is None:
                     return False, "length of %s only bounded, not fixed" \
                         % norm(e.args[0])
-                exact = any(isinstance(c, ast.Compare) and
-                            isinstance(c.ops[0], (ast.NotEq, ast.Eq))
-                            for c in walk_local(g.test)) or any(
-                    # `if len(buf) % n:` - truthiness of a remainder
-                    isinstance(c, ast.BinOp) and isinstance(c.op, ast.Mod)
-                    for c in walk_local(g.test))
-                if not exact:
+                if not is_exact(g):
                     return False, "guard `%s` does not fix the size" \
                         % norm(g.test)
                 continue
